@@ -41,6 +41,8 @@ def img(name):
             _IMG[name] = F.make_image("PNG", (5, 2), dpi=96, color=2)
         elif name == "J":
             _IMG[name] = F.make_image("JPEG", (6, 4), dpi=72, color=3)
+        elif name.startswith("I") and name[1:].isdigit():
+            _IMG[name] = F.make_image("PNG", (3, 3), dpi=None, color=10 + int(name[1:]))
         else:
             raise KeyError(name)
     return _IMG[name]
@@ -141,7 +143,7 @@ def op_add_picture(live, op):
         return SKIP
     blob = img(op.get("img", "A"))
     if op.get("via", "stream") == "path":
-        ext = {"A": "png", "B": "png", "J": "jpg"}[op.get("img", "A")]
+        ext = {"A": "png", "B": "png", "J": "jpg"}.get(op.get("img", "A"), "png")
         src = F.image_file("img_%s.%s" % (op.get("img", "A"), ext), blob)
     else:
         src = io.BytesIO(blob)
@@ -286,9 +288,10 @@ def op_hlink_run(live, op):
     s = _slide(live, op.get("slide"))
     if s is None:
         return SKIP
-    sh = _last(s, lambda sh: sh.has_text_frame and sh.text_frame.text != "")
-    if sh is None:
+    cands = [sh for sh in s.shapes if sh.has_text_frame and sh.text_frame.text != ""]
+    if not cands:
         return SKIP
+    sh = cands[0] if op.get("which") == "first" else cands[-1]
     runs = [r for p in sh.text_frame.paragraphs for r in p.runs]
     if not runs:
         return SKIP
@@ -430,12 +433,29 @@ def initial_blob(name):
         b = F.deck_out_of_order(3)
     elif name == "non_contiguous":
         b = F.deck_non_contiguous()
+    elif name == "rich":
+        b = _rich_deck()
     elif name.startswith("corpus:"):
         b = F.read_bytes(os.path.join(F.REPO, name[len("corpus:"):]))
     else:
         raise KeyError(name)
     _INIT_CACHE[name] = b
     return b
+
+
+def _rich_deck():
+    """A deck far from the initial state: 2 slides, two text shapes sharing nothing yet, 10 distinct images
+    (parts image1..image10), a table, two charts (embedded workbooks 1 and 2), notes on slide 1."""
+    live = Live(F.open_prs(F.read_bytes(F.DEFAULT_PPTX)), "rich-builder")
+    steps = [{"op": "add_slide", "layout": 6}, {"op": "add_textbox", "text": "t1"}, {"op": "add_shape", "kind": "RECTANGLE", "text": "t2"},
+             {"op": "add_table"}, {"op": "add_chart", "kind": "bar"}, {"op": "notes_text", "text": "n"},
+             {"op": "add_slide", "layout": 6}]
+    steps += [{"op": "add_picture", "img": "I%d" % i, "via": "stream"} for i in range(10)]
+    steps += [{"op": "add_chart", "kind": "xy"}, {"op": "add_textbox", "text": "last"}]
+    for op in steps:
+        lab = apply(live, op)
+        assert lab not in (SKIP,) and not str(lab).startswith("UNEXPECTED"), (op, lab)
+    return F.save_bytes(live.prs)
 
 
 def build(name):
